@@ -148,6 +148,11 @@ def proof_step(ctx, prop_file, theorems, gen=None):
     ok, msg = ctx.ensure_theories()
     if not ok:
         ctx.broken = "framework build failed: " + msg[-1500:]
+        ctx.obligations += [t for t in theorems if t not in ctx.obligations]
+        return False
+    if getattr(ctx, "regen_failed", None):
+        ctx.broken = ctx.regen_failed
+        ctx.obligations += [t for t in theorems if t not in ctx.obligations]
         return False
     res, log = ctx.check_properties_file(prop_file, theorems, gen=gen)
     failed = [(t, d) for t, (okk, d) in res.items() if not okk]
@@ -333,13 +338,18 @@ CHECKS.update({"C01": check_C01})
 
 # ------------------------------------------------------------------------------------------------ C02
 def check_C02(ctx, replay=None):
-    check_core_policy(ctx, "C02", "C02.v",
-                      ["C02_eq_by_halves", "C02_lt_by_halves", "C02_le_by_halves", "C02_bits_by_halves",
-                       "C02_ldhi_reads_high_half", "C02_ldlo_reads_low_half", "C02_condition_lowering",
-                       "C02_single_condition_exact", "C02_relations", "C02_nonvacuous"],
+    theorems = ["C02_eq_by_halves", "C02_lt_by_halves", "C02_le_by_halves", "C02_bits_by_halves",
+                "C02_ldhi_reads_high_half", "C02_ldlo_reads_low_half", "C02_condition_lowering",
+                "C02_single_condition_exact", "C02_relations", "C02_source_chain_is_the_model", "C02_source_chain_context",
+                "C02_source_load_offsets", "C02_nonvacuous"]
+    ctx.ensure_theories()
+    gen, log = ctx.regenerate()
+    if gen is None:
+        ctx.regen_failed = "regeneration failed: " + log[-2000:]
+    check_core_policy(ctx, "C02", "C02.v", theorems,
                       ["single_cond"],
                       "one group / one conditional entry / one condition: 8 operations x 6 argument indices x boundary and random 64-bit operands x both byte orders x four tables, compiled by the implementation and the extracted model (instruction-exact comparison); every program run on events whose argument is the operand, operand +-1, +-2^32, with high/low halves swapped or equal, all-ones, 0 and random, against the extracted decide (i.e. rel); non-trivial = accepted policy with events evaluated",
-                      replay=replay, npol=(500, 8000), nev=(40, 80), foreign_share=0.03)
+                      replay=replay, npol=(500, 8000), nev=(40, 80), foreign_share=0.03, gen=gen)
     # the same stream through a 32-bit build of the library (GOARCH=386 binaries run on this host): the word offsets of
     # seccomp_data must not depend on the width of the build's machine word
     if not replay or replay.get("goarch") == "386":
